@@ -81,7 +81,7 @@ def pairing_reference(evals, lkey, pkey):
     return keep
 
 def fin_params(tier):
-    shapes = [(2,2,1),(2,2,2)] if tier == 'quick' else [(2,2,1),(2,2,2),(3,2,1),(3,3,1),(3,2,2)]
+    shapes = [(2,2,1),(2,2,2)] if tier == 'quick' else [(2,2,1),(2,2,2),(3,2,1),(3,2,2)]    # 3x3x1 (4^9 existence/length patterns per parameter set) ran past an hour and is left out
     return [dict(ne=a,nl=b,nv=c,n=n,lp=lp) for a,b,c in shapes for n in (None,'min',1,2,3) for lp in (('learner_id','environment_id'),('family','environment_id'),('learner_id','a'))
             if not (lp != ('learner_id','environment_id') and n in (1,3))]
 
@@ -91,7 +91,7 @@ def _classify_fin(v):
     return w.split(':')[0][:100]
 
 @obligation('C18','where_fin', bounds={'quick':"<=2 environments x 2 learners x <=2 evaluators; which triples exist enumerated, lengths in {1,2,3} enumerated (fixed pattern when 2 evaluators); rewards symbolic; n in {None,'min',1,2,3}; (l,p) in {(learner_id,environment_id),(family,environment_id),(learner_id,a)} with duplicate parameter values",
-                                       'thorough':"up to 3x3x1 and 3x2x2"},
+                                       'thorough':"up to 3x2x1 and 3x2x2"},
             functions=FUNCS, params=fin_params, classify=_classify_fin, budget={'quick':80,'thorough':1500})
 def where_fin(sym, ne, nl, nv, n, lp):
     res, evals = build(sym, ne, nl, nv, fixed_len=(None if nv == 1 else (lambda e,l,v: (e+2*l+v) % 3 + 1)))
